@@ -26,6 +26,7 @@ inductive Var where
   | energyPrice | energyPattern | efficiency | energy | curveA | curveB | curveC
   | pop | arg1 | arg2 | averageExpectedDemand
   | Pstar | R | globalEfficiency | globalPrice | globalPattern | demandCharge | reportTimestep | pi
+  | ts | patternStart | demandMultiplier
   deriving DecidableEq, Repr
 
 /-- the index sets a sum ranges over (`wn.junction_name_list`, `wn.pumps()`, `wn.nodes(Tank)`, …) -/
@@ -39,9 +40,10 @@ inductive Fn1 where
   | exp | log | curveInterp | curveInterpX
   deriving DecidableEq, Repr
 
-/-- uninterpreted binary functions: `a ** b` with a non-literal exponent -/
+/-- uninterpreted binary functions: `a ** b` with a non-literal exponent; `junction.demand_timeseries_list.at(time,
+multiplier=…, category=<the function's own category argument>)` and the same without a category -/
 inductive Fn2 where
-  | rpow
+  | rpow | demandsAt | demandsAtAll
   deriving DecidableEq, Repr
 
 /-- the lookup tables (pandas Series parameters) of the economic metrics -/
